@@ -90,10 +90,17 @@ def i64Bits (v : Int) : Nat := (v % 18446744073709551616).toNat
 /-- answer of `clock_gettime(clock, &ts)`: the time, or failure with errno -/
 abbrev HostClock := String → Sum String (Int × Int)
 
-def clockTimeGet (host : HostClock) (clockID : Nat) (mem : Mem) (resultPtr : Nat) : Out (Nat × Mem) :=
+/-- the host clock `clock_gettime` is called with: the table's clock of `clockID`, unless the regenerated
+    `clockOverride` names another one for this `precision` (the pinned source has no such branch) -/
+def clockNative (clockID precision : Nat) : Option String :=
   match Gen.WasiPath.clockTable.find? (fun r => r.1 == clockID) with
+  | none => none
+  | some (_, native) => some ((Gen.WasiPath.clockOverride clockID precision).getD native)
+
+def clockTimeGet (host : HostClock) (clockID precision : Nat) (mem : Mem) (resultPtr : Nat) : Out (Nat × Mem) :=
+  match clockNative clockID precision with
   | none => .val (Gen.WasiPath.clockDefaultErrno, mem)
-  | some (_, native) =>
+  | some native =>
     match host native with
     | .inl e => .val (wasiErrno e, mem)
     | .inr (sec, nsec) => do
